@@ -124,6 +124,9 @@ fn ok(val: Val, shape: &'static str) -> Choice {
 fn may(val: Val, shape: &'static str, why: &'static str) -> Choice {
     Choice { val: Some(val), shape, expect: Expect::MayReject(why) }
 }
+fn unj(val: Val, shape: &'static str, why: &'static str) -> Choice {
+    Choice { val: Some(val), shape, expect: Expect::Unjudged(why) }
+}
 fn missing() -> Choice {
     Choice { val: None, shape: "missing", expect: Expect::Exact }
 }
@@ -181,7 +184,7 @@ pub fn values(ty: Ty, scalar: bool, info: bool, p: Purpose, thorough: bool) -> V
             v.push(ok(Val::IntA(vec![None]), "single-missing"));
             v.push(ok(Val::IntA(vec![Some(i32::MIN + 8), Some(i32::MAX)]), "int-extremes"));
             v.push(may(Val::IntA(vec![Some(1), Some(i32::MIN + 1)]), "int-reserved", "reserved integer"));
-            v.push(may(Val::IntA(vec![]), "empty-array", "empty array has no VCF text"));
+            v.push(unj(Val::IntA(vec![]), "empty-array", "empty array has no VCF text"));
             v.push(missing());
             if bcf {
                 v.push(ok(Val::IntA(vec![Some(-120), Some(127)]), "i8-range"));
@@ -230,7 +233,7 @@ pub fn values(ty: Ty, scalar: bool, info: bool, p: Purpose, thorough: bool) -> V
             v.push(ok(Val::fa(&[None]), "single-missing"));
             v.push(ok(Val::FloatA(vec![Some(NAN_CANON), Some(1f32.to_bits())]), "nan"));
             v.push(ok(Val::fa(&[Some(f32::INFINITY), Some(f32::from_bits(1))]), "inf-subnormal"));
-            v.push(may(Val::FloatA(vec![]), "empty-array", "empty array has no VCF text"));
+            v.push(unj(Val::FloatA(vec![]), "empty-array", "empty array has no VCF text"));
             v.push(missing());
             if bcf {
                 v.push(ok(Val::FloatA(vec![Some(0x7fc0_0001), Some(0xffc0_0000)]), "nan-payload"));
@@ -254,9 +257,12 @@ pub fn values(ty: Ty, scalar: bool, info: bool, p: Purpose, thorough: bool) -> V
                 ('\n', "lf"),
                 ('\r', "cr"),
                 (' ', "space"),
-                ('é', "non-ascii"),
             ] {
                 v.push(ok(Val::Char(c), s));
+            }
+            if !bcf {
+                // a Character is one byte in BCF; see NOTES (observation O1)
+                v.push(ok(Val::Char('é'), "non-ascii"));
             }
             v.push(missing());
         }
@@ -272,8 +278,10 @@ pub fn values(ty: Ty, scalar: bool, info: bool, p: Purpose, thorough: bool) -> V
             v.push(ok(Val::CharA(vec![Some('.'), Some('a')]), "lone-dot"));
             v.push(ok(Val::CharA(vec![Some(':'), Some('%')]), "colon"));
             v.push(ok(Val::CharA(vec![Some('\t'), Some('\n')]), "tab"));
-            v.push(ok(Val::CharA(vec![Some('é'), Some('a')]), "non-ascii"));
-            v.push(may(Val::CharA(vec![]), "empty-array", "empty array has no VCF text"));
+            if !bcf {
+                v.push(ok(Val::CharA(vec![Some('é'), Some('a')]), "non-ascii"));
+            }
+            v.push(unj(Val::CharA(vec![]), "empty-array", "empty array has no VCF text"));
             v.push(missing());
             if bcf {
                 v.push(ok(Val::CharA("abcdefgh".chars().map(Some).collect()), "len-15-bytes"));
@@ -299,7 +307,7 @@ pub fn values(ty: Ty, scalar: bool, info: bool, p: Purpose, thorough: bool) -> V
             ] {
                 v.push(ok(Val::s(x), s));
             }
-            v.push(may(Val::s(""), "empty-string", "empty string is not generated (calibration)"));
+            v.push(unj(Val::s(""), "empty-string", "empty string is not generated (calibration)"));
             v.push(missing());
             if bcf {
                 v.push(ok(Val::Str(strn(14)), "len-14"));
@@ -325,8 +333,9 @@ pub fn values(ty: Ty, scalar: bool, info: bool, p: Purpose, thorough: bool) -> V
             v.push(ok(Val::sa(&[Some("a:b"), Some("c%d")]), "colon"));
             v.push(ok(Val::sa(&[Some("a\tb"), Some("\n")]), "tab"));
             v.push(ok(Val::sa(&[Some("é"), Some("x y")]), "non-ascii"));
-            v.push(may(Val::sa(&[Some(""), Some("a")]), "empty-string", "empty string is not generated (calibration)"));
-            v.push(may(Val::StrA(vec![]), "empty-array", "empty array has no VCF text"));
+            v.push(ok(Val::sa(&[Some("%3B"), Some("x")]), "percent-sequence"));
+            v.push(unj(Val::sa(&[Some(""), Some("a")]), "empty-string", "empty string is not generated (calibration)"));
+            v.push(unj(Val::StrA(vec![]), "empty-array", "empty array has no VCF text"));
             v.push(missing());
             if bcf {
                 let many = |n: usize| Val::StrA((0..n).map(|i| Some(format!("e{i}"))).collect());
@@ -402,7 +411,12 @@ pub fn genotypes(ff: (u32, u32), p: Purpose, thorough: bool) -> Vec<Choice> {
         flip("/1", "leading-phase-mark-haploid");
         flip("/0|1/2", "leading-phase-mark");
     }
-    v.push(may(Val::Gt(vec![]), "ploidy-0", "a genotype without alleles has no VCF text"));
+    if p == Purpose::Bcf {
+        // in C10's quantifier ("ploidy 0..4"): Err or an exact round trip
+        v.push(may(Val::Gt(vec![]), "ploidy-0", "a genotype without alleles"));
+    } else {
+        v.push(unj(Val::Gt(vec![]), "ploidy-0", "a genotype without alleles has no VCF text"));
+    }
     if p == Purpose::Bcf {
         let big = |a: usize| Val::Gt(canon(vec![(Some(0), false), (Some(a), false)]));
         v.push(may(big(62), "allele-62", "allele index beyond ALT count"));
@@ -730,9 +744,7 @@ pub fn gen_record(ch: &Chooser, env: &Env, b: usize) -> Generated {
     // INFO slot A: any key with any value; slot B: any key with its default value (a neighbour)
     if let Some((k, c)) = ch.pick("info.a", &env.info_slot) {
         set_info(&mut rec, k, c.val.clone());
-        if let Expect::MayReject(w) = &c.expect {
-            expect.weaken(w);
-        }
+        expect.merge(&c.expect);
         shapes.push((format!("info:{k}"), c.shape));
     }
     if let Some((k, c)) = ch.pick("info.b", &env.info_keys) {
@@ -766,7 +778,7 @@ pub fn gen_record(ch: &Chooser, env: &Env, b: usize) -> Generated {
                     set_info(&mut rec, "END", Some(Val::Int(n as i32)));
                     shapes.push(("info:END".into(), ends[i].1));
                     if n < p {
-                        expect.weaken("END before POS");
+                        expect.unjudge("END before POS");
                     }
                 }
                 None => {
@@ -802,9 +814,7 @@ pub fn gen_record(ch: &Chooser, env: &Env, b: usize) -> Generated {
                 if i > 0 {
                     let c = &env.gts[i - 1];
                     rec.samples[si][0] = c.val.clone();
-                    if let Expect::MayReject(w) = &c.expect {
-                        expect.weaken(w);
-                    }
+                    expect.merge(&c.expect);
                     shapes.push(("sample:GT".into(), c.shape));
                 }
             }
@@ -839,9 +849,7 @@ pub fn gen_record(ch: &Chooser, env: &Env, b: usize) -> Generated {
         if let Some((k, c)) = ch.pick("fmt.a", &env.fmt_slot) {
             let j = set_fmt(&mut rec, k, &c.val);
             col_a = Some((j, c.val.clone()));
-            if let Expect::MayReject(w) = &c.expect {
-                expect.weaken(w);
-            }
+            expect.merge(&c.expect);
             shapes.push((format!("sample:{k}"), c.shape));
         }
         if let Some((k, c)) = ch.pick("fmt.b", &env.fmt_keys) {
@@ -850,28 +858,31 @@ pub fn gen_record(ch: &Chooser, env: &Env, b: usize) -> Generated {
                 shapes.push((format!("sample:{k}"), "neighbour"));
             }
         }
-        // per-sample overrides of slot A's column (or of column 1 of the base record)
+        // per-sample overrides of slot A's column (or of column 1 of the base record); the choice
+        // points exist whether or not there is such a column, so that the sequence of choice points
+        // depends on the base record only (harnesses re-generate sub-records by zeroing choices)
         let col = col_a.clone().or_else(|| {
             if rec.format.len() > 1 { Some((1, rec.samples[0].get(1).cloned().flatten())) } else { None }
         });
-        if let Some((j, v)) = col {
-            for (si, label) in ["ovr.s0", "ovr.s1", "ovr.s2"].into_iter().enumerate().take(n_s) {
-                match ch.dev(label, 3) {
-                    0 => {}
-                    1 => {
-                        if rec.samples[si].len() > j {
-                            rec.samples[si][j] = None;
-                            shapes.push((format!("sample:{}", rec.format[j]), "sample-value-missing"));
-                        }
+        for (si, label) in ["ovr.s0", "ovr.s1", "ovr.s2"].into_iter().enumerate().take(n_s) {
+            let c = ch.dev(label, 3);
+            let Some((j, v)) = &col else { continue };
+            let j = *j;
+            match c {
+                0 => {}
+                1 => {
+                    if rec.samples[si].len() > j {
+                        rec.samples[si][j] = None;
+                        shapes.push((format!("sample:{}", rec.format[j]), "sample-value-missing"));
                     }
-                    _ => {
-                        if let Some(o) = other_value(&v) {
-                            while rec.samples[si].len() <= j {
-                                rec.samples[si].push(None);
-                            }
-                            rec.samples[si][j] = Some(o);
-                            shapes.push((format!("sample:{}", rec.format[j]), "unequal-per-sample"));
+                }
+                _ => {
+                    if let Some(o) = other_value(v) {
+                        while rec.samples[si].len() <= j {
+                            rec.samples[si].push(None);
                         }
+                        rec.samples[si][j] = Some(o);
+                        shapes.push((format!("sample:{}", rec.format[j]), "unequal-per-sample"));
                     }
                 }
             }
@@ -920,6 +931,11 @@ pub fn gen_record(ch: &Chooser, env: &Env, b: usize) -> Generated {
                     expect.weaken("entirely missing GT (calibration: rejected)");
                 }
             }
+        }
+    }
+    if let Some((_, Some(Val::Int(e)))) = rec.info.iter().find(|(k, _)| k == "END") {
+        if (*e as i64) < rec.pos.max(1) as i64 {
+            expect.unjudge("END before POS");
         }
     }
     if rec.chrom == "sq9" && bcf {
@@ -1035,7 +1051,7 @@ pub fn gen_header(ch: &Chooser, ff: (u32, u32), thorough: bool) -> GeneratedHead
 
     // FILTER lines
     for (l_def, l_desc, l_idx) in [("filter.0", "filter.0.desc", "filter.0.idx"), ("filter.1", "filter.1.desc", "filter.1.idx")] {
-        let ids = ["q10", "s50", "PASS", "LowQual;x"];
+        let ids = ["q10", "s50", "PASS", "LowQual"];
         let i = ch.dev(l_def, ids.len() + 1);
         if i == 0 {
             continue;
@@ -1108,7 +1124,7 @@ pub fn gen_header(ch: &Chooser, ff: (u32, u32), thorough: bool) -> GeneratedHead
 
     // ALT lines
     {
-        let ids = ["DEL", "DUP:TANDEM", "INS:ME:ALU", "NON_REF", "*"];
+        let ids = ["DEL", "DUP:TANDEM", "INS:ME:ALU", "NON_REF"];
         let i = ch.dev("alt", ids.len() + 1);
         if i > 0 {
             let di = ch.dev("alt.desc", DESCS.len());
@@ -1138,7 +1154,7 @@ pub fn gen_header(ch: &Chooser, ff: (u32, u32), thorough: bool) -> GeneratedHead
         let mut c = ContigDef { id: id.into(), ..Default::default() };
         c.length = [None, Some(1000usize), Some(0), Some(1 << 31)][ch.dev(l_len, 4)];
         c.md5 = [None, Some("d41d8cd98f00b204e9800998ecf8427e".to_string())][ch.dev(l_md5, 2)].clone();
-        c.url = [None, Some("https://example.com/x.fa?a=b".to_string()), Some("file:///a,b".to_string())][ch.dev(l_url, 3)].clone();
+        c.url = [None, Some("https://example.com/x.fa?a=b".to_string()), Some("file:///a/b.fa".to_string())][ch.dev(l_url, 3)].clone();
         c.idx = [None, Some(0usize), Some(5)][ch.dev(l_idx, 3)];
         if c.idx.is_some() {
             if h.contigs.iter().any(|x| x.idx == c.idx) {
@@ -1172,7 +1188,11 @@ pub fn gen_header(ch: &Chooser, ff: (u32, u32), thorough: bool) -> GeneratedHead
                 id: "Child".into(),
                 fields: vec![("Father".into(), "F".into()), ("Mother".into(), "M".into())],
             },
-            OtherRec::Map {
+            OtherRec::Str { key: "fileDate".into(), value: "20260926".into() },
+        ];
+        if ff >= (4, 3) {
+            // META lines exist from 4.3
+            alpha.push(OtherRec::Map {
                 key: "META".into(),
                 id: "Assay".into(),
                 fields: vec![
@@ -1180,9 +1200,8 @@ pub fn gen_header(ch: &Chooser, ff: (u32, u32), thorough: bool) -> GeneratedHead
                     ("Number".into(), ".".into()),
                     ("Values".into(), "[WholeGenome, Exome]".into()),
                 ],
-            },
-            OtherRec::Str { key: "fileDate".into(), value: "20260926".into() },
-        ];
+            });
+        }
         if thorough {
             alpha.push(OtherRec::Map { key: "foo".into(), id: "x".into(), fields: vec![("bar".into(), "b\\z".into())] });
         }
